@@ -348,7 +348,22 @@ def r2_blocks(program, folder, rep, sites, ffl):
     Lb = Poly.atom("len(%s)" % ps[2])
     P = Poly.atom(posn)
     SDL = Poly.atom("self.scp_data_length")
-    it = Interp(d, entry_cons=[le(4, SDL)], candidates=[le(P, Lb), le(0, P)],
+    # a second cursor counting down what is left (``offset += n; remaining
+    # -= n``): the two add up to the length of the binary - offered to the
+    # interpreter as a candidate invariant, kept only if it is inductive
+    cands = [le(P, Lb), le(0, P)]
+    for lp_ in ast.walk(d):
+        if not isinstance(lp_, (ast.While, ast.For)):
+            continue
+        ups = [x for x in ast.walk(lp_) if isinstance(x, ast.AugAssign) and
+               isinstance(x.target, ast.Name)]
+        for u_ in ups:
+            for v_ in ups:
+                if isinstance(u_.op, ast.Add) and isinstance(v_.op, ast.Sub) \
+                        and ast.dump(u_.value) == ast.dump(v_.value):
+                    sm = Poly.atom(u_.target.id) + Poly.atom(v_.target.id)
+                    cands += [le(sm, Lb), le(Lb, sm)]
+    it = Interp(d, entry_cons=[le(4, SDL)], candidates=cands,
                 consts=consts, pure_self_methods=("_send_scp",))
     isite = it.cfg.node_containing(call)
     dsz = it.sym(parse_expr("len(%s)" % chain(data)), isite)
